@@ -4,7 +4,7 @@ import sys,subprocess,os
 f,line=sys.argv[1],int(sys.argv[2])
 src=open(f).read().split('\n')
 pre='\n'.join(src[:line])+'\nShow.\n'
-tmp='/tmp/c15dbg/dbg_tmp.v'
+tmp='/tmp/dbg_tmp.v'
 open(tmp,'w').write(pre)
 r=subprocess.run(['coqc','-Q',os.path.join(os.path.dirname(os.path.dirname(os.path.abspath(__file__))),'coq','theories'),'ClapModel',tmp],capture_output=True,text=True)
 out=(r.stdout+r.stderr)
